@@ -171,8 +171,8 @@ def parseFacts (j : Json) : Facts :=
 def parseCfg (j : Json) : Cfg :=
   { maxEventSize := getInt j "max_event_size", oldestEvent := getInt j "oldest_event",
     validKinds := (getArr j "valid_kinds").toList.map fun x => x.getInt?.toOption.getD 0,
-    whitelist := bytesList (j.getObjVal? "whitelist" |>.toOption.getD Json.null),
-    blacklist := bytesList (j.getObjVal? "blacklist" |>.toOption.getD Json.null),
+    whitelist := match j.getObjVal? "whitelist" with | .ok (Json.arr a) => some (bytesList (Json.arr a)) | _ => none,
+    blacklist := match j.getObjVal? "blacklist" with | .ok (Json.arr a) => some (bytesList (Json.arr a)) | _ => none,
     requirePow := getInt j "require_pow", hellthreadLimit := getInt j "hellthread_limit",
     servicePubkey := fromHex (getStr j "service_pubkey") }
 
@@ -228,32 +228,44 @@ def frameJson : Frame → Json
   | .ok e b => Json.arr #[Json.str "OK", n2j e, Json.bool b]
   | .notice => Json.arr #[Json.str "NOTICE"]
 
-/-- one client message (or disconnect), then the settled schedule; `none` = the label was not enabled -/
-def runMsg (s : State) (m : Json) : Option State :=
+/-- one client message (or disconnect / release of a held query), then the settled schedule;
+    `none` = the label was not enabled.  Returns the new state and the new list of held query tasks. -/
+def runMsg (s : State) (held : List Nat) (m : Json) : Option (State × List Nat) :=
   let c := natOf m "c"
   let fuel := 1000000
   let pairs : List (Nat × Nat) := (getArr m "match").toList.map fun p =>
     match p.getArr?.toOption.getD #[] with
     | #[a, b] => ((a.getInt?.toOption.getD 0).toNat, (b.getInt?.toOption.getD 0).toNat)
     | _ => (0, 0)
-  let lbl : Label := match getStr m "t" with
-    | "connect" => .connect c
-    | "req" => .req c (natOf m "sub") (AD.getBool m "usable") (AD.getBool m "allowed") (natList m "answer")
-    | "close" => .close c (natOf m "sub")
-    | "event" => .event c (natOf m "ev") (AD.getBool m "accepted")
-    | _ => .disconnect c
-  (step s lbl).map fun s1 => settle s1 (fun _ i => pairs.contains (s1.owner i)) fuel
+  let fin (s1 : State) (h : List Nat) : State × List Nat := (settle s1 (fun _ i => pairs.contains (s1.owner i)) fuel h, h)
+  match getStr m "t" with
+  | "release" =>
+    -- the held query of the subscription currently registered under (c, sub) may run now
+    let sub := natOf m "sub"
+    let ids := (s.registry.filter fun r => r.conn == c && r.name == sub).map (·.inst)
+    some (fin s (held.filter fun i => !ids.contains i))
+  | t =>
+    let lbl : Label := match t with
+      | "connect" => .connect c
+      | "req" => .req c (natOf m "sub") (AD.getBool m "usable") (AD.getBool m "allowed") (natList m "answer")
+      | "close" => .close c (natOf m "sub")
+      | "event" => .event c (natOf m "ev") (AD.getBool m "accepted")
+      | _ => .disconnect c
+    (step s lbl).map fun s1 =>
+      -- a REQ marked "hold" whose subscription got registered: its query task is kept suspended
+      let h := if t == "req" && AD.getBool m "hold" && s1.registry.any (fun r => r.inst == s.nextInst) then held ++ [s.nextInst] else held
+      fin s1 h
 
 def session (j : Json) : Json :=
   let s0 : State := { subLimit := natOf j "limit", eoseOnCancel := AD.getBool j "eoc" }
-  let (_, out) := (getArr j "msgs").toList.foldl (fun (acc : State × List Json) m =>
-    let (s, out) := acc
-    match runMsg s m with
-    | none => (s, out ++ [Json.str "disabled"])
-    | some s' =>
+  let (_, _, out) := (getArr j "msgs").toList.foldl (fun (acc : State × List Nat × List Json) m =>
+    let (s, held, out) := acc
+    match runMsg s held m with
+    | none => (s, held, out ++ [Json.str "disabled"])
+    | some (s', held') =>
       let frames := s'.connIds.map fun c => Json.arr #[n2j c, Json.arr (((s'.transcript c).drop (s.transcript c).length).map frameJson).toArray]
       let subs := s'.registry.map fun r => Json.arr #[n2j r.conn, n2j r.name]
-      (s', out ++ [Json.mkObj [("frames", Json.arr frames.toArray), ("subs", Json.arr subs.toArray)]])) (s0, [])
+      (s', held', out ++ [Json.mkObj [("frames", Json.arr frames.toArray), ("subs", Json.arr subs.toArray)]])) (s0, [], [])
   Json.arr out.toArray
 
 end PD
